@@ -518,7 +518,7 @@ def check_std(chk, case, r, mjobs):
 
 def run(chk):
     chk.coq_obligations()
-    n = chk.n(240, 4000)
+    n = chk.n(240, 12000)
     cases = CORPUS + [gen_case(chk.rng, chk.quick) for _ in range(n)]
     impl = run_impl(impl_run, cases, limit=150)
     mjobs, todo = [], []
